@@ -1,15 +1,15 @@
 SPECIFICATION MCLive1
 CONSTANTS
   F = {"b", "c"}
-  MaxRec = 2
-  MaxEp = 2
+  MaxRec = 3
+  MaxEp = 1
   FetchMax = 1
   SlowTimeouts = FALSE
   ZombieSteals = FALSE
   MaxTick = 0
   MaxSlow = 0
-  MaxIdleT = 1
-  MaxKill = 1
+  MaxIdleT = 0
+  MaxKill = 0
   TrackLast = FALSE
 INVARIANTS X03_Quiet
 PROPERTIES X03_LiveStore X03_LiveHW
